@@ -57,6 +57,14 @@ class C5Typed2(JsonRpcError):
     message = 'c5 typed two'
 
 
+class C5Typed3(JsonRpcError):
+    """a user class that (mis)uses the code/message pattern for data as well: the class attribute must never leak into
+    a deserialised error that came without a data member"""
+    code = 71003
+    message = 'c5 typed three'
+    data = {'class-level': 'default'}
+
+
 class CustomBase(JsonRpcError):
     """a user-supplied base class (no code of its own)"""
 
@@ -69,7 +77,7 @@ REGISTERED = {
     -32700: pjrpc.exceptions.ParseError, -32600: pjrpc.exceptions.InvalidRequestError,
     -32601: pjrpc.exceptions.MethodNotFoundError, -32602: pjrpc.exceptions.InvalidParamsError,
     -32603: pjrpc.exceptions.InternalError, -32000: pjrpc.exceptions.ServerError,
-    71001: C5Typed1, 71002: C5Typed2,
+    71001: C5Typed1, 71002: C5Typed2, 71003: C5Typed3,
 }
 UNREGISTERED = [0, 1, -1, 2, 42, -32099, -32001, 2 ** 40, -(2 ** 40), 4711, 32000]
 BASES = {'default': JsonRpcError, 'custom': CustomBase, 'other': OtherBase}
